@@ -8,8 +8,8 @@ from pyval import enc
 
 def _msg(m): return re.sub(r"0x[0-9a-fA-F]+", "0x?", m or "")
 def canon(resp):
-    return json.dumps({"data": enc(resp.get("data")), "has_errors_key": "errors" in resp,
-                       "errors": [[e.get("path"), _msg(e.get("message")), e.get("locations"), e.get("extensions")] for e in resp.get("errors") or []]}, sort_keys=True, default=str)
+    return _msg(json.dumps({"data": enc(resp.get("data")), "has_errors_key": "errors" in resp,
+                       "errors": [[e.get("path"), _msg(e.get("message")), e.get("locations"), e.get("extensions")] for e in resp.get("errors") or []]}, sort_keys=True, default=str))
 
 def dict_decorator(fn):
     store = {}
@@ -35,11 +35,22 @@ async def explore(tier, seed):
         pool = []
         for _ in range(6):
             dg = DocGen(sg, rng, op_kinds=("query", "mutation") if sg.mutation else ("query",))
+            dg.nested_vars = True; dg.repeat_with_directive = True
             q, ops, opvars = dg.document(n_ops=rng.choice([1, 2, 2]))
             for k in range(len(ops)):
-                for _ in range(2):
+                for _ in range(3):
                     variables, _ = dg.variables_for(opvars[k], invalid=0.2)
                     pool.append(("valid", q, ops[k][1], variables))
+                # the same variable alternating between look-alike values (1 / true / 1.0 / "1"), flipped booleans
+                from gen import base as _base
+                for n, (ty, d) in opvars[k].items():
+                    b_ = _base(ty)
+                    if b_ in ("Int", "Float", "ID", "Boolean") and "l" not in json.dumps(ty):
+                        basev, _ = dg.variables_for(opvars[k], invalid=0.0)
+                        for alt in ([1, True, 0, False, 1.0] if b_ != "Boolean" else [True, False, 1, 0]):
+                            vv = dict(basev); vv[n] = alt
+                            pool.append(("lookalike", q, ops[k][1], vv))
+                        break
             pool.append(("bytes", q.encode("utf-8"), ops[0][1], dg.variables_for(opvars[0])[0]))
             pool.append(("unknown-op", q, "Nope", None))
             pool.append(("invalid", q.replace("{", "{ nope_field ", 1), ops[0][1], None))
